@@ -31,6 +31,13 @@ GUARDS = [
 ]
 
 
+# validity predicates: stub name, C function, stub parameters (`p` itself as an address, then its fields; all size_t, NULL = 0)
+VALIDS = [
+    ("verif_valid_byte_buf", "aws_byte_buf_is_valid", ["buf", "buf_capacity", "buf_len", "buf_buffer"]),
+    ("verif_valid_byte_cursor", "aws_byte_cursor_is_valid", ["cursor", "cursor_len", "cursor_ptr"]),
+]
+
+
 def _strip_comments(t):
     t = re.sub(r"/\*.*?\*/", lambda m: " " * len(m.group(0)), t, flags=re.S)
     return re.sub(r"//[^\n]*", lambda m: " " * len(m.group(0)), t)
@@ -80,6 +87,23 @@ def guard_stub(src, stub, fname, marker, params):
     extra = ids - set(params)
     if extra:
         raise GenError(f"{fname}: the guard `{cond}` mentions {sorted(extra)} besides {params}")
+    return cond, f"static bool {stub}({', '.join('size_t ' + p for p in params)}) {{ return ({expr}); }}\n"
+
+
+def valid_stub(src, stub, fname, params):
+    """the body of a validity predicate must be exactly `{ return <expr>; }`; pointers become addresses (`size_t`, NULL = 0),
+    `p->field` becomes `p_field`; AWS_MEM_IS_READABLE / _WRITABLE are expanded by clang as configured (assert.h)"""
+    body = " ".join(function_body(src, fname).split())
+    m = re.fullmatch(r"\{ return (.*); \}", body)
+    if not m or ";" in m.group(1):
+        raise GenError(f"{fname}: body is no longer a single `return <expr>;`")
+    cond = m.group(1)
+    expr = re.sub(r"\b(\w+)\s*->\s*(\w+)", r"\1_\2", cond)
+    expr = re.sub(r"\bNULL\b", "0", expr)
+    ids = set(re.findall(r"\b[A-Za-z_]\w*\b", expr)) - {"AWS_MEM_IS_READABLE", "AWS_MEM_IS_WRITABLE"}
+    extra = ids - set(params)
+    if extra:
+        raise GenError(f"{fname}: the predicate `{cond}` mentions {sorted(extra)} besides {params}")
     return cond, f"static bool {stub}({', '.join('size_t ' + p for p in params)}) {{ return ({expr}); }}\n"
 
 
@@ -187,6 +211,11 @@ def generate(repo, cfg_inc):
         cond, text = guard_stub(src, stub, fname, marker, params)
         conds[stub] = (fname, cond)
         stubs += text
+    vconds = {}
+    for stub, fname, params in VALIDS:
+        cond, text = valid_stub(src, stub, fname, params)
+        vconds[stub] = (fname, cond)
+        stubs += text
     tu = f'#include "{path}"\n' + stubs
     out = ["/-! GENERATED by gen/bytebuf_fns.py (through gen/cfun.py) from /repo/source/byte_buf.c on every check — do not edit.",
            "C integers are `Nat` (two's complement), every wrapping operation carries its `% 2^w`. -/",
@@ -214,6 +243,13 @@ def generate(repo, cfg_inc):
         text, info = translate(gn[stub], stub)
         out += [f"/-- guard of `{fname}` as written: `{conds[stub][1]}` -/", text]
         meta[stub] = conds[stub][1]
+    vn = cfun.dump_functions(tu, "verif_valid_", inc)
+    for stub, fname, params in VALIDS:
+        if stub not in vn:
+            raise GenError(f"validity stub {stub} was not parsed")
+        text, info = translate(vn[stub], stub)
+        out += [f"/-- `{fname}` as written (pointers as addresses, NULL = 0): `{vconds[stub][1]}` -/", text]
+        meta[stub] = vconds[stub][1]
     # growth constants of s_byte_buf_init_from_file_impl, evaluated by clang in the scope of source/file.c
     from . import log_gen
     fc = log_gen.constants(os.path.join(repo, "source", "file.c"), ["MIN_BUFFER_GROWTH_READING_FILES", "MAX_BUFFER_GROWTH_READING_FILES"],
